@@ -48,10 +48,13 @@ TokenRepl ==  \* ReplaceTokenClass(c -> r): token class c, replacement r
    newline |-> {"cr", "crlf", "none", "nul", "longline"},     \* LF -> CR, CRLF, joined lines, NUL, very long line
    sep     |-> {"none", "dup", "nul", "badutf8"},             \* : = ,   removed / doubled / NUL / invalid UTF-8
    slash   |-> {"none", "dup", "nul"},                        \* / \   removed / doubled / NUL
+   punct   |-> {"none", "dup"},                                \* @ # $ % & * + ; ! ? | ~ ^   removed / doubled
+   qstring |-> {"null"},                                       \* a double-quoted string (quotes included) becomes the bare word null
+   innerobj|-> {"null"},                                       \* an innermost {...} group becomes null (e.g. an array element)
    word    |-> {"none", "dup", "longline", "lower", "upper"}]                   \* run of letters, digits, _ - .  (a key, a name, a version) blanked / doubled / 4096 bytes / letter case changed (keywords matched in one place case-insensitively and in another not)
 Classes == DOMAIN TokenRepl
 \* one occurrence at a time (the n-th token of the class): what is done to it
-NthRepl(c) == IF c = "word" THEN {"none", "longline", "lower", "upper"} ELSE IF c = "digits" THEN {"none", "digits20"} ELSE {"none"}
+NthRepl(c) == IF c = "word" THEN {"none", "longline", "lower", "upper"} ELSE IF c \in {"qstring", "innerobj"} THEN {"null"} ELSE IF c = "digits" THEN {"none", "digits20"} ELSE {"none"}
 
 Literals == {"null", "array", "object", "quote", "zero", "true", "tilde", "lt", "dashes", "string"}
 NestKinds == {"json-array", "json-object", "xml", "yaml-indent", "toml-table", "toml-inline", "paren"}
